@@ -22,7 +22,13 @@ for c in contracts:
     try:
         sm = extract.module(c.module)
         fdef, _ = sm.find(c.qualname)
-        funcs[f"{c.module}:{c.qualname}"] = sm.sha(fdef)
+        key = f"{c.module}:{c.qualname}" + (("@" + c.extra["variant"]) if c.extra.get("variant") else "")
+        if c.extra.get("block"):
+            from pyvc.num_engine import extract_block
+            b = extract_block(fdef, c.extra["block"], list(c.params))
+            funcs[key] = hashlib.sha256("\n".join(sm.lines[b.body[0].lineno - 1:b.body[-1].end_lineno]).encode()).hexdigest()[:16]
+        else:
+            funcs[key] = sm.sha(fdef)
         with open(sm.path, "rb") as fh:
             files[c.module] = hashlib.sha256(fh.read()).hexdigest()[:16]
     except Exception as ex:
